@@ -4,4 +4,6 @@ pub mod engine;
 pub mod walk;
 #[macro_use]
 pub mod bddi;
+pub mod cnfgen;
+pub mod oracle;
 pub mod props;
